@@ -64,7 +64,11 @@ class G:
         if r.random() < 0.6:
             return self.number(0, 300)
         self.feats.add("length.unit")
-        return self.number(0, 300, plain=True) + r.choice(["em", "ex", "px", "in", "cm", "mm", "pt", "pc", "%"])
+        # SVG 1.1 length ::= number unit?: the number part takes the full number grammar (sign, leading / trailing dot, exponent)
+        plain = r.random() < 0.5
+        if not plain:
+            self.feats.add("length.unit.full-number-grammar")
+        return self.number(0, 300, plain=plain) + r.choice(["em", "ex", "px", "in", "cm", "mm", "pt", "pc", "%"])
 
     def sep(self):
         k = self.r.random()
@@ -448,7 +452,7 @@ def check_case(ctx, case):
 def run_shard(ctx):
     acc = ctx.acc
     rng = ctx.rng("svg")
-    n = 3000 if ctx.quick() else 100000
+    n = 9000 if ctx.quick() else 200000
     for j in range(n):
         if ctx.out_of_time():
             acc.notes.append("time budget reached after %d docs" % j)
